@@ -38,3 +38,5 @@ sv10_t verif_conv_reshape_bias(sv_t src) { return ix::conv_reshape_bias(src,two_
 ai2_t  verif_conv_kernel_size(sv_t weight_shape) { return ix::conv_kernel_size(weight_shape,two_t{}); }
 ai2_t  verif_conv_expand_spacing(a2_t dilation) { return ix::conv_expand_spacing(dilation,two_t{}); }
 sv16_t verif_conv_pad(nm_size_t src_dim, a2_t padding) { return ix::conv_pad(cd_t(src_dim),padding,two_t{}); }
+// the instance convnd builds: windows on the last two axes (conv_window_axis = (-1,-2))
+sv_t   verif_sliding_window_conv(sv10_t idx, sv10_t dst_shape, sv_t src_shape, a2_t window) { return ix::sliding_window(idx,dst_shape,src_shape,window,ai2_t{-1,-2}); }
